@@ -48,7 +48,7 @@ def canonicalize_url(
         hostname = hostname.lower()
 
     # Dropping HTTP/HTTPS ports
-    if port == 80 or port == 443:
+    if (scheme == "http" and port == 80) or (scheme == "https" and port == 443):
         port = None
 
     if strip_fragment:
